@@ -198,3 +198,116 @@ def prove_webvtt_read_skeleton(ctx, clause="times"):
     from pycaption.webvtt import WebVTTReader as WR
     ctx.prove("webvtt.WebVTTReader.read+_parse" + ("" if clause == "times" else "[layout]"), lambda c: webvtt_read_skeleton(c, clause),
               functions=[WR.read, WR._parse], crosscheck=False)
+
+
+# ------------------------------------------------------------------------------------ DFXPReader.read
+
+class _RTag:
+    """a parsed element as DFXPReader.read sees it (A: the bs4 navigation contract - find_all in document order,
+    find_parent = nearest enclosing element of that name, parents, attrs, get_text)"""
+    def __init__(self, name, attrs=None, text="", children=()):
+        self.name, self.attrs, self.text, self.children, self.parent = name, dict(attrs or {}), text, list(children), None
+        self.layout_info = ("layout of", name, id(self))
+        for ch in self.children:
+            ch.parent = self
+
+    def _walk(self):
+        for ch in self.children:
+            yield ch
+            yield from ch._walk()
+
+    def find_all(self, name, *a, **kw):
+        return [t for t in self._walk() if t.name == name]
+
+    def find_parent(self, name):
+        p = self.parent
+        while p is not None and p.name != name:
+            p = p.parent
+        return p
+
+    @property
+    def parents(self):
+        p = self.parent
+        while p is not None:
+            yield p
+            p = p.parent
+
+    def get_text(self):
+        return self.text + "".join(ch.get_text() for ch in self.children)
+
+    @property
+    def tt(self):
+        return self if self.name == "tt" else next(t for t in self._walk() if t.name == "tt")
+
+
+def _dfxp_shapes():
+    P = lambda tag, text="words": _RTag("p", {"begin": "1s", "end": "2s", "tag": tag}, text)
+    D = lambda lang, *ps: _RTag("div", {"xml:lang": lang} if lang else {}, children=ps)
+    return {
+        "one div": ("en", [D("en", P("a"), P("b"))]),
+        "two languages": ("en", [D("en", P("a")), D("fr", P("b"), P("c"))]),
+        "a language in two divs, another between them": ("en", [D("en", P("a")), D("fr", P("b")), D("en", P("c"), P("d"))]),
+        "div without a language under a tt that has one": ("de", [D(None, P("a")), D("fr", P("b"))]),
+        "no language anywhere": (None, [D(None, P("a"), P("b"))]),
+        "blank paragraphs": ("en", [D("en", P("a"), P("blank", "  \n "), P("b")), D("fr", P("blank2", ""), P("c"))]),
+        "a div inside a div": ("en", [D("en", P("a"), D("fr", P("b")), P("c"))]),
+    }
+
+
+def dfxp_read_skeleton(c):
+    """DFXPReader.read + _convert_div_to_caption_list as a skeleton: P[n] over seven document shapes (one div; two
+    languages; a language spread over two divs with another between them; a div without xml:lang under a tt that has one /
+    has none; blank paragraphs; a div inside a div).  The parser is the navigation stub above (A), `_convert_p_tag_to_caption`
+    and `_convert_style` are recording stubs.
+
+      * every paragraph with text is converted exactly once and is a caption of the language of its NEAREST enclosing div
+        (the div's own xml:lang, else the document's, else the default code); blank paragraphs are no captions;
+      * the captions of a language are its paragraphs in document order - also when they stand in several divs;
+        languages come in the order of their first div;
+      * a second document read with the same reader gives what a fresh reader gives."""
+    from pycaption.base import Caption, CaptionNode, DEFAULT_LANGUAGE_CODE
+    from pycaption.dfxp.base import DFXPReader as DR
+    shapes = _dfxp_shapes()
+    name = c.pick("document", list(shapes))
+    tt_lang, divs = shapes[name]
+    root = _RTag("[document]", children=[_RTag("tt", {"xml:lang": tt_lang} if tt_lang else {}, children=[
+        _RTag("head", children=[_RTag("styling", children=[_RTag("style", {"xml:id": "s1"})]),
+                                _RTag("layout", children=[_RTag("region", {"xml:id": "r1"}, children=[_RTag("style", {"xml:id": "in_region"})])])]),
+        _RTag("body", children=divs)])])
+    rd = c.new(DR, read_invalid_positioning=False, nodes=[])
+    log = []
+
+    def h_p(interp, fn, a, kw):
+        p_ = N(fn, a, kw)["p_tag"]
+        log.append(p_)
+        return Caption(10 ** 6, 2 * 10 ** 6, [CaptionNode.create_text(p_.attrs["tag"])])
+    c.interp.contracts.update({
+        "pycaption.dfxp.base:DFXPReader._get_dfxp_parser_class": lambda interp, fn, a, kw: (lambda content, **kw_: root),
+        "pycaption.dfxp.base:DFXPReader._convert_p_tag_to_caption": h_p,
+        "pycaption.dfxp.base:DFXPReader._convert_style": lambda interp, fn, a, kw: {"style of": N(fn, a, kw)["tag"].attrs.get("xml:id")}})
+    # expected, from the statement: nearest enclosing div decides the language
+    want, order = {}, []
+    for p_ in root.find_all("p"):
+        if not p_.get_text().strip():
+            continue
+        d_ = p_.find_parent("div")
+        lang = d_.attrs.get("xml:lang") or tt_lang or DEFAULT_LANGUAGE_CODE
+        want.setdefault(lang, []).append(p_.attrs["tag"])
+    for d_ in root.find_all("div"):
+        lang = d_.attrs.get("xml:lang") or tt_lang or DEFAULT_LANGUAGE_CODE
+        if lang not in order:
+            order.append(lang)
+    for turn in (1, 2):
+        del log[:]
+        r = c.call(DR.read, rd, "<tt/>", compare=False)
+        c.ensure(f"read{turn}/every_paragraph_with_text_converted_exactly_once",
+                 sorted(p_.attrs["tag"] for p_ in log) == sorted(t_ for v in want.values() for t_ in v))
+        c.ensure(f"read{turn}/languages_in_the_order_of_their_first_div", [l for l in r.get_languages() if r.get_captions(l)] == [l for l in order if want.get(l)])
+        c.ensure(f"read{turn}/each_language_has_the_paragraphs_of_its_own_divs_in_document_order",
+                 {l: [x.get_text() for x in r.get_captions(l)] for l in r.get_languages() if r.get_captions(l)} == want)
+        c.ensure(f"read{turn}/styles_of_the_head_outside_regions", dict(r.get_styles()) == {"s1": {"style of": "s1"}})
+
+
+def prove_dfxp_read_skeleton(ctx):
+    from pycaption.dfxp.base import DFXPReader as DR
+    ctx.prove("dfxp.DFXPReader.read", dfxp_read_skeleton, functions=[DR.read, DR._convert_div_to_caption_list], crosscheck=False)
